@@ -19,7 +19,7 @@ use std::{fmt, hash::Hash};
 //
 // requirements:
 // - values must be immutable
-#[derive(Default, Clone)]
+#[derive(Default)]
 pub struct IdSet<T: Hash + Eq> {
     map: HashMap<Ptr<T>, u32>,
     current_buf: Vec<T>, // TODO: instead of using Vec<T> for a buffer, maybe use a [MaybeUninit<T>], or even a raw buffer of bytes...
@@ -51,6 +51,19 @@ impl<T: Hash + Eq> PartialEq for Ptr<T> {
 }
 
 impl<T: Hash + Eq> Eq for Ptr<T> {}
+
+// A derived Clone would copy `map` and `id_to_ptr` as they are, leaving the clone's pointers
+// aimed at the original's buffers: they dangle once the original is dropped or cleared.
+// Re-inserting in iteration (= id) order rebuilds them over the clone's own buffers.
+impl<T: Hash + Eq + Clone> Clone for IdSet<T> {
+    fn clone(&self) -> Self {
+        let mut set = Self::new();
+        for value in self.iter() {
+            set.insert(value.clone());
+        }
+        set
+    }
+}
 
 impl<T: Hash + Eq> IdSet<T> {
     #[inline]
